@@ -274,6 +274,11 @@ class Ctx:
     def selftest(self, name, rejected):
         """Binding self-test: a deliberately corrupted trace / expectation must be rejected."""
         self.cov["binding_selftest"].append({"test": name, "rejected": bool(rejected)})
+        if not rejected and (self.violations or self.known_hits):
+            # the implementation is already shown to deviate; a self-test that runs through it
+            # proves nothing either way
+            self.cov["binding_selftest"][-1]["note"] = "inconclusive: implementation already violating"
+            return
         if not rejected:
             raise ToolError("binding self-test '%s' was NOT rejected: the specification no longer "
                             "constrains the implementation" % name)
